@@ -44,7 +44,7 @@ theorem Preserved.withTime {J : World → Prop}
     (finish : ∀ w p v st, J w → J (finishProc w p v st))
     (clear : ∀ w p (f : Proc → Proc), J w → J (w.modProc p f)) :
     Preserved (fun w => TimeOk w.ev ∧ J w) where
-  clear w p f _ _ h := ⟨h.1, clear w p f h.2⟩
+  clear w p f _ _ _ h := ⟨h.1, clear w p f h.2⟩
   same hs h := ⟨hs.2.2.2.2.2.2.1 h.1, same hs h.2⟩
   tick he h := ⟨(timeOk_tick h.1 he).1, mono _ _ (timeOk_tick h.1 he).2 h.2⟩
   exec w p c _ h := ⟨(execCmd_fp w p c).2.2.2.2.2.2.1 h.1, exec w p c h.2⟩
